@@ -126,3 +126,27 @@ func VerifC10_GetAddrs() {
 		verif_Assert(err == nil && len(addrs) == wantOK, "addresses with unknown protocols are skipped, the others are returned")
 	}
 }
+
+// C10: decoding into a Message value that was used before gives the same result
+// as decoding into a fresh one (no field of the earlier message leaks).
+func VerifC10_DecodeIntoUsedValue() {
+	first := &Message{Cid: c10cid(1), Addrs: [][]byte{{1, 2}}, ExtraData: []byte{9, 9}, OrigPeer: "px"}
+	second := &Message{Cid: c10cid(verif_U8("cidDigest"))}
+	if verif_Bool("secondHasAddr") {
+		second.Addrs = [][]byte{verif_Bytes("address", 1)}
+	}
+	if verif_Bool("secondHasExtra") {
+		second.ExtraData = verif_Bytes("extra", 1)
+	}
+	if verif_Bool("secondHasOrigPeer") {
+		second.OrigPeer = verif_Str("origPeer", 1)
+	}
+	var b1, b2 bytes.Buffer
+	verif_Assume(first.MarshalCBOR(&b1) == nil && second.MarshalCBOR(&b2) == nil)
+	var d Message
+	verif_Assert(d.UnmarshalCBOR(bytes.NewReader(b1.Bytes())) == nil && c10equiv(&d, first), "the first message decodes")
+	err := d.UnmarshalCBOR(bytes.NewReader(b2.Bytes()))
+	verif_Reach("decoded twice")
+	verif_Assert(err == nil, "a valid encoding decodes into a previously used value")
+	verif_Assert(c10equiv(&d, second), "the decoded message equals the second original: nothing of the earlier message remains")
+}
